@@ -55,6 +55,14 @@ CHECKS = {
          "Partition (every keep mask for n <= 16 on exact and windowed slices), Rotate (every n <= 64, every k in [-n-2,n+2] and far out of range), Chunks/Batches (every len <= 40 x n in [-1,len+3]), Head/Tail/Stripe/At/PtrAt are compared with their definitions; 'capacity-clipped' is checked by appending to each result and looking for clobbered cells; documented panics must occur and undocumented ones must not. Held = no violation on the enumerated arguments.",
          "Reads 'capacity-clipped' behaviourally (append cannot overwrite a cell outside the subslice).",
          "DESIGN.md §5 C17"),
+ "C13": ("chunk interpreter (edits executed against Left[LStart,LEnd) / Right[RStart,REnd)) at three observation points, context-width and disjointness invariants, whole-patch application; exhaustive small inputs x all context sizes, random repetitive inputs",
+         "For every pair of line sequences over small alphabets/lengths and every n in 0..5 (about 2.5 M triples in quick) plus random repetitive inputs, the chunks after New, after AddContext(n) and after Unify are interpreted line by line against both inputs, context widths, ordering, non-adjacency and the Left->Right replacement are checked, and Edits must stay untouched. Held = no violation on that space.",
+         "Trusts the chunk interpreter written from the Chunk documentation.",
+         "DESIGN.md §5 C13"),
+ "C14": ("independent reference parsers and strict reference appliers for the normal, unified and context formats (line-counting, both line numbers checked); reader round trips compared with the reference parse; byte-identical re-formatting; external oracles GNU patch (applier) and GNU diff (generator); text-level signature for known finding F5",
+         "Every rendering (Normal, Unified, Context; from New and from New.AddContext(n).Unify()) of tens of thousands of diffs over an adversarial line alphabet is parsed by reference parsers written from the format descriptions, must describe the original changes at the original ranges, and must turn Left into Right under strict appliers; Read/ReadUnified/ReadGitPatch must return the reference parse and re-format to identical bytes with names and timestamps preserved; a sample is applied with GNU patch and GNU diff output is fed to the readers. Unified read failures with an omitted count that match the F5 signature are KNOWN-FINDING; everything else is a VIOLATION.",
+         "Trusts my reading of the GNU diffutils manual, GNU patch 2.7 / GNU diff 3.x as installed, and the F5 signature.",
+         "DESIGN.md §5 C14, §4"),
  "C07": ("reference-model monitor (slice) after every operation; exhaustive short histories + scripted wrap/regrow scenarios + PRNG histories; internal-state reach counters via hook",
          "Runs the real queue.Queue against a slice reference and compares the full observable state (Len, IsEmpty, Front, Slice, Each, every Peek offset) after every single operation, over every history of bounded length for small preallocated sizes, scripted rotate-then-grow scenarios for every capacity 1..24 and head position, and tens of thousands of PRNG histories. Held = no divergence on the executions listed in the evidence file; nothing is proved beyond them.",
          "Trusts the slice reference model and the Go runtime. The VerifState hook feeds reach counters only.",
